@@ -1213,16 +1213,18 @@ class PE:
         if isinstance(f, Closure):
             q = f.func.qname if f.func else None
             if q and q in self.overrides:
-                return self.overrides[q](self, args, kwargs)
+                return self.overrides[q](self, *_by_position(f.node, args, kwargs))
             return self.call_closure(f, args, kwargs)
         if isinstance(f, Bound):
             q = f.fn.func.qname if f.fn.func else None
             if q and q in self.overrides:
-                return self.overrides[q](self, [f.obj] + list(args), kwargs)
+                return self.overrides[q](self, *_by_position(f.fn.node, [f.obj] + list(args), kwargs))
             return self.call_closure(f.fn, [f.obj] + list(args), kwargs)
         if isinstance(f, ClassRef):
             if f.cls.qname in self.overrides:
-                return self.overrides[f.cls.qname](self, args, kwargs)
+                init = self.src.find_method(f.cls, "__init__")
+                names = init.params[1:] if init is not None else list(self.all_fields(f.cls))
+                return self.overrides[f.cls.qname](self, *_by_position(names, args, kwargs))
             return self.new_object(f.cls, args, kwargs)
         if isinstance(f, ExtRef):
             h = self.ext.get(f.qname)
@@ -1885,6 +1887,51 @@ def _enum_mixin(src: Source, cls: Class):
 
 
 CURRENT_PE = None
+
+
+class _NamedKw(dict):
+    """keyword arguments left after binding by position; lookups by name also find the arguments that were bound by position, so
+    a stand-in for a repository function sees the same arguments however the call site spells them"""
+
+    def __init__(self, rest, named):
+        super().__init__(rest)
+        self.named = named
+
+    def __missing__(self, k):
+        return self.named[k]
+
+    def __contains__(self, k):
+        return dict.__contains__(self, k) or k in self.named
+
+    def get(self, k, d=None):
+        return self[k] if k in self else d
+
+    def all(self):
+        """every argument by name (those bound by position included)"""
+        return {**self.named, **self}
+
+
+def named_arguments(kwargs):
+    """all arguments of an intercepted call by parameter name, however the call site spelled them"""
+    return kwargs.all() if isinstance(kwargs, _NamedKw) else dict(kwargs)
+
+
+def _by_position(fn_node, args, kwargs):
+    """(args, kwargs) of a call to the function `fn_node` with every keyword that names the next positional parameter moved into
+    the positional list (a stand-in reads a[i] whatever the spelling of the call)"""
+    if isinstance(fn_node, list):
+        names = fn_node
+    else:
+        a = getattr(fn_node, "args", None)
+        if a is None:
+            return args, kwargs
+        names = [x.arg for x in a.posonlyargs + a.args]
+    args = list(args)
+    rest = dict(kwargs)
+    while len(args) < len(names) and names[len(args)] in rest:
+        args.append(rest.pop(names[len(args)]))
+    named = {nm: v for nm, v in zip(names, args)}
+    return args, _NamedKw(rest, named)
 
 
 def decide_on_values(pe, text, env, rep=None, generic=True):
